@@ -655,9 +655,6 @@ func (m *m10) feeSwap(op op10, tk *tok10, before chain.Sheet, evmBefore string) 
 		}
 		if res.Outcome == chain.Overflow {
 			m.cls["feeswap-overflow"] = true
-			if os.Getenv("C10_DEBUG") != "" {
-				fmt.Printf("OVERFLOW %v %+v\n", res.Panic, op)
-			}
 		}
 	}
 	return m.invariants()
